@@ -146,54 +146,80 @@ Proof.
 Qed.
 
 (* ---- maybe_append ---- *)
-(* [maybe_append_ok] asks for "the anchor index is inside the log or its term is not 0";
-   in Ok-form this is not needed: an anchor beyond the last index with term 0 "matches"
-   (term() answers 0 out of range), but then either nothing is appended or the append
-   leaves a gap and panics *)
+(* shape of the conflict search over a contiguous batch (no assumption on the terms) *)
+Lemma find_conflict_shape L ents : forall j,
+  contiguous_from j ents -> 0 < j ->
+  let ci := ll_find_conflict L ents in
+  ci = 0 \/ (ci <> 0 /\ j <= ci /\ ci < j + N.of_nat (length ents)
+             /\ exists e r, skipn (N.to_nat (ci - j)) ents = e :: r /\ e_index e = ci).
+Proof.
+  induction ents as [|e rest IH]; intros j Hc Hj; cbn [ll_find_conflict].
+  - left. reflexivity.
+  - destruct Hc as [He Hc]. destruct (ll_match L (e_index e) (e_term e)).
+    + destruct (IH (j + 1) Hc ltac:(lia)) as [H0|(Hn0 & H1 & H2 & e' & r & Hsk & Hi)].
+      * left. exact H0.
+      * right. cbn [length]. split; [exact Hn0|]. split; [lia|]. split; [lia|].
+        exists e', r. split; [|exact Hi].
+        replace (N.to_nat (ll_find_conflict L rest - j))
+          with (S (N.to_nat (ll_find_conflict L rest - (j + 1)))) by lia.
+        cbn [skipn]. exact Hsk.
+    + right. cbn [length]. split; [lia|]. split; [lia|]. split; [lia|].
+      exists e, rest. split; [|reflexivity].
+      replace (N.to_nat (e_index e - j)) with O by lia. reflexivity.
+Qed.
+
+(* [maybe_append_ok] asks that the entries carry non-zero terms and that the anchor index
+   is inside the log or its term is not 0; in Ok-form neither is needed: an out-of-range
+   index "matches" term 0 (term() answers 0 there), but then either nothing is appended
+   or the append leaves a gap and panics *)
 Lemma maybe_append_pres rw l i t cmt ents l' res :
   maybe_append l i t cmt ents = Ok (l', res) -> RepInv rw l ->
-  contiguous_from (i + 1) ents -> nz_terms ents -> i + N.of_nat (length ents) < u64_max ->
+  contiguous_from (i + 1) ents -> i + N.of_nat (length ents) < u64_max ->
   RepInv rw l' /\ store l' = store l /\ applied l' = applied l.
 Proof.
-  intros H HI Hc Hnz Hb.
-  assert (Hmain : (i <= ll_last (abs l) \/ t <> 0) ->
-                  RepInv rw l' /\ store l' = store l /\ applied l' = applied l).
-  { intros Hit. destruct (ll_match (abs l) i t) eqn:Em.
-    - remember (ll_find_conflict (abs l) ents) as ci eqn:Eci.
-      assert (Hci : ci = 0 \/ committed l < ci).
-      { destruct (N.eq_dec ci 0) as [Hz|Hz]; [left; exact Hz|]. right.
-        destruct (N.lt_ge_cases (committed l) ci) as [Hlt|Hge]; [exact Hlt|]. exfalso.
-        rewrite (maybe_append_fatal rw l i t cmt ents HI Em) in H; [discriminate|]. subst ci. lia. }
-      destruct (maybe_append_ok rw l i t cmt ents HI Hc Hnz Hit Hb Em ltac:(rewrite <- Eci; exact Hci))
-        as (l2 & Hm2 & Hr & _ & _ & _ & Hap & Hst).
-      rewrite H in Hm2. inversion Hm2; subst l2. auto.
-    - rewrite (maybe_append_reject rw l i t cmt ents HI Em) in H. inversion H; subst. auto. }
-  destruct (N.le_gt_cases i (ll_last (abs l))) as [Hil|Hil]; [apply Hmain; left; exact Hil|].
-  destruct (N.eq_dec t 0) as [Ht|Ht]; [|apply Hmain; right; exact Ht].
-  clear Hmain.
-  (* the anchor is beyond the last index and its term is 0 *)
-  subst t. unfold maybe_append in H. rewrite (match_term_abs rw l i 0 HI) in H.
-  assert (Em : ll_match (abs l) i 0 = true).
-  { unfold ll_match, ll_term. destruct (ll_last (abs l) <? i) eqn:E; [|lia].
-    rewrite orb_true_r. reflexivity. }
-  rewrite Em in H. cbn [bind negb] in H. rewrite (find_conflict_abs rw l ents HI) in H. cbn [bind] in H.
-  destruct ents as [|e0 t0].
-  - cbn [ll_find_conflict] in H. change (0 =? 0) with true in H. cbn [bind] in H.
+  intros H HI Hc Hb. unfold maybe_append in H. rewrite (match_term_abs rw l i t HI) in H.
+  destruct (ll_match (abs l) i t); cbn [bind negb] in H; [|inversion H; subst; auto].
+  rewrite (find_conflict_abs rw l ents HI) in H. cbn [bind] in H.
+  destruct (find_conflict_shape (abs l) ents (i + 1) Hc ltac:(lia))
+    as [H0|(Hn0 & H1 & H2 & e & r & Hsk & Hi)].
+  - rewrite H0 in H. change (0 =? 0) with true in H. cbn [bind] in H.
     destruct (u64_max <? _); [discriminate|]. inv_bind H. inversion H; subst.
     destruct (commit_to_pres rw _ _ _ Hx HI) as (A & B1 & _ & B3). auto.
-  - exfalso. destruct Hc as [Hi0 _]. inversion Hnz as [|? ? Hte _]; subst.
-    assert (Emf : ll_match (abs l) (e_index e0) (e_term e0) = false).
-    { unfold ll_match, ll_term. destruct (ll_last (abs l) <? e_index e0) eqn:E; [|lia].
-      rewrite orb_true_r. cbn. apply N.eqb_neq. lia. }
-    cbn [ll_find_conflict] in H. rewrite Emf in H.
-    pose proof (ri_commit rw l HI) as Hcm.
-    destruct (e_index e0 =? 0) eqn:E0; [lia|].
-    destruct (e_index e0 <=? committed l) eqn:E1; [lia|].
-    destruct (i =? u64_max) eqn:E2; [lia|].
-    destruct (e_index e0 <? i + 1) eqn:E3; [lia|].
-    destruct (N.of_nat (length (e0 :: t0)) <? e_index e0 - (i + 1)) eqn:E4; [cbn [length] in E4; lia|].
-    replace (N.to_nat (e_index e0 - (i + 1))) with O in H by lia. cbn [skipn] in H.
-    rewrite (log_append_gap_panics rw l e0 t0 HI) in H by lia. discriminate.
+  - set (ci := ll_find_conflict (abs l) ents) in *.
+    destruct (ci =? 0) eqn:E0; [lia|].
+    destruct (ci <=? committed l) eqn:E1; [discriminate|].
+    destruct (i =? u64_max) eqn:E2; [discriminate|].
+    destruct (ci <? i + 1) eqn:E3; [discriminate|].
+    destruct (N.of_nat (length ents) <? ci - (i + 1)) eqn:E4; [discriminate|]. cbv zeta in H.
+    rewrite Hsk in H.
+    assert (Hce : contiguous_from (e_index e) (e :: r)).
+    { rewrite <- Hsk, Hi.
+      replace ci with (i + 1 + N.of_nat (N.to_nat (ci - (i + 1)))) at 1 by lia.
+      apply contig_skipn. exact Hc. }
+    assert (Hlen : length (e :: r) = (length ents - N.to_nat (ci - (i + 1)))%nat).
+    { rewrite <- Hsk. apply skipn_length. }
+    pose proof (ll_last_upper rw l HI) as Hup.
+    (* a gap after the last index panics *)
+    assert (Hgap : e_index e <= ll_last (abs l) + 1).
+    { destruct (N.le_gt_cases (e_index e) (ll_last (abs l) + 1)) as [Hle|Hgt]; [exact Hle|]. exfalso.
+      rewrite (log_append_gap_panics rw l e r HI) in H by lia. discriminate. }
+    destruct (trunc_append_ok (unst l) e r ltac:(lia)) as (u' & Hu & Hsn & Hcase).
+    set (p := N.min (persisted l) (ci - 1)).
+    destruct (append_unstable_abs rw l e r u' p HI Hce ltac:(lia) Hgap ltac:(lia) ltac:(lia)
+                ltac:(lia) Hsn Hcase) as [_ Hr].
+    unfold log_append in H. destruct (e_index e =? 0) eqn:E5; [lia|].
+    destruct (e_index e - 1 <? committed l) eqn:E6; [lia|].
+    rewrite Hu in H. cbn [bind fst] in H.
+    assert (Hl1 : (if ci - 1 <? persisted (set_unst l u') then set_persisted (set_unst l u') (ci - 1)
+                   else set_unst l u') = set_persisted (set_unst l u') p).
+    { cbn [set_unst persisted]. subst p.
+      destruct (ci - 1 <? persisted l) eqn:E7.
+      - rewrite N.min_r by lia. reflexivity.
+      - rewrite N.min_l by lia. reflexivity. }
+    rewrite Hl1 in H.
+    destruct (u64_max <? _); [discriminate|]. inv_bind H. inversion H; subst.
+    destruct (commit_to_pres rw _ _ _ Hx Hr) as (A & B1 & _ & B3).
+    split; [exact A|]. split; [rewrite B1; reflexivity|rewrite B3; reflexivity].
 Qed.
 
 (* ---- restore ---- *)
@@ -589,23 +615,24 @@ Qed.
 
 (* ---------------- follower-side handlers ---------------- *)
 
-(* shape of an inbound MsgAppend: the entries are numbered consecutively after
-   m_index, carry non-zero terms and do not run past u64::MAX (a predicate of the
-   message alone; [maybe_append_ok]'s fourth precondition is not needed in Ok-form) *)
+(* shape of an inbound MsgAppend: the entries are numbered consecutively after m_index
+   and do not run past u64::MAX (a predicate of the message alone; [maybe_append_ok]'s
+   other two preconditions - non-zero terms, anchor inside the log or of non-zero term -
+   are not needed in Ok-form) *)
 Definition append_wf (m : msg) : Prop :=
-  contiguous_from (m_index m + 1) (m_entries m) /\ nz_terms (m_entries m)
+  contiguous_from (m_index m + 1) (m_entries m)
   /\ m_index m + N.of_nat (length (m_entries m)) < u64_max.
 
 Lemma handle_append_entries_pres rw r m r' :
   handle_append_entries r m = Ok r' -> append_wf m -> LI rw r -> LI rw r'.
 Proof.
-  unfold handle_append_entries. intros H (W1 & W2 & W4) HI.
+  unfold handle_append_entries. intros H (W1 & W4) HI.
   destruct (negb (r_pending_request_snapshot r =? INVALID_INDEX)).
   { apply send_request_snapshot_log in H. eapply LI_same; eassumption. }
   destruct (m_index m <? committed (r_log r)).
   { apply send_log in H. eapply LI_same; eassumption. }
   inv_bind H. destruct x as [l' res].
-  destruct (maybe_append_pres rw _ _ _ _ _ _ _ Hx HI W1 W2 W4) as (A & _).
+  destruct (maybe_append_pres rw _ _ _ _ _ _ _ Hx HI W1 W4) as (A & _).
   destruct res as [[a b]|].
   - apply send_log in H. eapply LI_same; [exact H|exact A].
   - inv_bind H. destruct x as [hi [ht|]]; [|discriminate].
@@ -1881,7 +1908,6 @@ Proof. reflexivity. Qed.
 Lemma append_wf_def m :
   append_wf m <->
   contiguous_from (m_index m + 1) (m_entries m)
-  /\ Forall (fun e => e_term e <> 0) (m_entries m)
   /\ m_index m + N.of_nat (length (m_entries m)) < u64_max.
 Proof. reflexivity. Qed.
 
@@ -2107,7 +2133,7 @@ Module RepInvSamples.
   Lemma app1_wf : msg_wf (nlast f0) app1.
   Proof.
     unfold msg_wf. split; [|split; [|split]]; intros E; try (vm_compute in E; discriminate E).
-    unfold append_wf. cbn. repeat split; try lia. repeat constructor; discriminate.
+    unfold append_wf. cbn. repeat split; lia.
   Qed.
 
   Example ex_follower_trace : wrun f0 f6.
@@ -3360,3 +3386,20 @@ Module HandoutSamples.
     vm_compute. apply nrun2_nil.
   Qed.
 End HandoutSamples.
+
+(* ---- persist_pre is automatic while no outstanding record carries a snapshot ---- *)
+Lemma fold_records_no_snapshot recs : forall number i t si,
+  (forall rr, In rr recs -> rr_snapshot rr = None) ->
+  snd (fold_records recs number i t si) = si.
+Proof.
+  induction recs as [|rr rest IH]; intros number i t si Hn; cbn [fold_records]; [reflexivity|].
+  destruct (number <? rr_number rr); [reflexivity|].
+  rewrite (Hn rr (or_introl eq_refl)).
+  destruct (rr_last_entry rr) as [[a b]|]; apply IH; intros r Hr; apply Hn; right; exact Hr.
+Qed.
+
+Theorem persist_pre_no_snapshot n number :
+  (forall rr, In rr (rn_records n) -> rr_snapshot rr = None) -> persist_pre n number.
+Proof.
+  intros Hn. unfold persist_pre. rewrite (fold_records_no_snapshot _ _ _ _ _ Hn). intros H. lia.
+Qed.
